@@ -48,6 +48,13 @@ EDITS = [
   "        self.crosswire_pubsub(src=rpc.PROXY_STATE_PUBSUB,\n                              tgt=rpc.STATE_PUBSUB,\n                              from_proxy=True)",
   "        self.crosswire_pubsub(src=rpc.PROXY_STATE_PUBSUB,\n                              tgt=rpc.STATE_PUBSUB,\n                              from_proxy=False)",
   'C16.wiring'),
+ ('verify-worker-class', 'C19', 'task_description.py',
+  "            self.raptor_class = self.worker_class\n            self.worker_class = ''",
+  "            self.raptor_class = self.worker_class\n            self.raptor_class = ''",
+  'worker_class'),
+ ('verify-gpu-alias', 'C19', 'task_description.py',
+  "            self.gpus_per_rank = float(self.gpu_processes)",
+  "            self.gpus_per_rank = float(self.gpu_threads)", 'gpu_processes'),
 ]
 
 
